@@ -31,9 +31,10 @@ RULE = ("Hypothesis-generated recipes: referenced array of rank 1-3, extents 1-6
         "stop rules; MultiTag with 1-4 positions (1-D or n x k position arrays), extents of the same shape or "
         "none, position index incl. n (out of range); feature array with link type tagged / indexed / "
         "untagged. Positions on, between, before and after the samples, regions ending on/between samples and "
-        "past the stored data. ~70% of the recipes use dyadic numbers and exactly computable unit factors "
-        "(decided exactly), the rest decimals / factors < 1 (a sample within the stated tolerance of a region "
-        "boundary may be in or out). Oracle: Fraction arithmetic with an own prefix table gives per axis the "
+        "past the stored data. 55% of the recipes are built from dyadic numbers and unit factors >= 1 that are "
+        "exact in binary64, 45% from decimals / arbitrary prefix pairs incl. factors < 1; the oracle itself "
+        "decides per recipe whether it is decided exactly (classes 'exact' ~3/4, 'tolerant' ~1/4: a sample "
+        "within the stated tolerance of a region boundary may be in or out). Oracle: Fraction arithmetic with an own prefix table gives per axis the "
         "index set of the samples the descriptor defines inside [s, s+e] ([s, s+e) for extent > 0 and the "
         "exclusive rule, {s} for no/zero extent); some set empty or reaching past the stored extent => "
         "IndexError/OutOfBounds or an invalid view with empty [:], else a valid view equal to "
